@@ -35,7 +35,7 @@ Atoms
 from __future__ import annotations
 
 import ast
-from typing import Dict, FrozenSet, List, Optional, Set, Tuple
+from typing import Dict, FrozenSet, Iterator, List, Optional, Set, Tuple
 
 from .cfg import CFG, Node, cfg_of
 from .flow import reaching, target_names
@@ -146,6 +146,22 @@ class Values:
             if res.kind == "lib" and self.pkg.lib_class(res.qual) is not None:
                 return res.qual
         return None
+
+    PLAIN_TYPES = {"bool", "int", "str", "float", "Optional[int]", "Optional[bool]"}
+
+    def is_plain(self, atom: Atom) -> bool:
+        """('user', 'unit:param') of a parameter annotated with a plain builtin type:
+        operators on it cannot run user code."""
+        if atom[0] != "user" or ":" not in atom[1]:
+            return False
+        ushort, _, pname = atom[1].partition(":")
+        if not self.pkg.has_unit(ushort):
+            return False
+        u = self.pkg.unit(ushort)
+        for p in u.params():
+            if p.arg == pname and p.annotation is not None:
+                return norm(p.annotation) in self.PLAIN_TYPES
+        return False
 
     # ------------------------------------------------------------------- names
     def name(self, unit: Unit, ident: str, at: Optional[Node]) -> Val:
@@ -281,7 +297,10 @@ class Values:
             stmt = d.ast
             assert isinstance(stmt, ast.AugAssign)
             old = self.expr(unit, stmt.target, _pred_node(d)) if isinstance(stmt.target, ast.Name) else EMPTY
-            return frozenset(set(old) | {("result", "augmented")})
+            rhs = self.expr(unit, stmt.value, d)
+            if any(a[0] in USERISH for a in rhs) or any(a[0] in USERISH for a in old):
+                return frozenset(set(old) | {("result", "augmented")})
+            return old or V(("const", "augmented"))
         if "source" in info:  # loop target
             pull: Node = info["source"]
             itv = self.expr(unit, pull.info["iter"], pull)
@@ -317,7 +336,7 @@ class Values:
                     elif a[0] == "elems":
                         out |= self._destructure(V(a[1]), elt, ident)
                     elif a[0] in USERISH:
-                        out |= self._destructure(V(("item", _src(a))), elt, ident)
+                        out |= self._destructure(V(("item", _src(a) + "[]")), elt, ident)
                     else:
                         out.add(("unknown", f"unpack:{ident}"))
             return frozenset(out)
@@ -334,7 +353,7 @@ class Values:
                 for v in a[1]:
                     out |= v
             elif k in ("user", "iter", "siter", "item", "result"):
-                out.add(("item", _src(a)))
+                out.add(("item", _src(a) + "[]"))
             elif k == "borrowed":
                 out |= self.element_of(V(a[1]), is_async)
             elif k == "libgen":
@@ -653,7 +672,9 @@ class Values:
             else:
                 subs = [e.left] + list(e.comparators)
             vals = [self.expr(unit, s, at) for s in subs]
-            if any(a[0] in USERISH for v in vals for a in v):
+            if isinstance(e, ast.Compare) and all(isinstance(o, (ast.Is, ast.IsNot)) for o in e.ops):
+                return V(("const", "identity test"))
+            if any(a[0] in USERISH and not self.is_plain(a) for v in vals for a in v):
                 return V(("result", "operator"))
             return V(("const", "computed"))
         if isinstance(e, (ast.JoinedStr, ast.FormattedValue)):
@@ -950,7 +971,7 @@ class Values:
                 elif a[0] == "genexp":
                     out |= {("elems", x) for x in self.element_of(V(a))}
                 elif a[0] in USERISH:
-                    out.add(("elems", ("item", _src(a))))
+                    out.add(("elems", ("item", _src(a) + "[]")))
                 elif a[0] == "contmeth":
                     out |= self.call_container(a[1], a[2])
                 else:
@@ -1075,3 +1096,27 @@ def _src(a: Atom) -> str:
     if a[0] in USERISH:
         return a[1]
     return str(a)
+
+
+def atoms_deep(v) -> "Iterator[Atom]":
+    """All atoms of a value including those nested in containers / wrappers."""
+    stack = list(v)
+    while stack:
+        a = stack.pop()
+        yield a
+        for part in a[1:]:
+            if isinstance(part, frozenset):
+                stack.extend(part)
+            elif isinstance(part, tuple):
+                if part and isinstance(part[0], str):
+                    stack.append(part)
+                else:
+                    for sub in part:
+                        if isinstance(sub, frozenset):
+                            stack.extend(sub)
+                        elif isinstance(sub, tuple) and sub and isinstance(sub[0], str):
+                            stack.append(sub)
+
+
+def mentions(v, src: str) -> bool:
+    return any(a[0] in USERISH and a[1] == src for a in atoms_deep(v))
